@@ -180,7 +180,8 @@ def unambiguous_repertoire():
         return a
     for cp in list(range(0x20, 0x7f)) + list(range(0xff61, 0xffa0)) + list(range(0x3041, 0x3094)) + list(range(0x30a1, 0x30f7)) + list(range(0x4e00, 0x9fa0)) + [0x3000, 0x3001, 0x3002, 0x300c, 0x300d, 0x30fb, 0x30fc]:
         c = chr(cp)
-        if c in '\\~': continue      # 0x5C / 0x7E are yen / overline in JIS X 0201: ambiguous
+        # (0x5C / 0x7E: yen / overline only in JIS X 0201 proper; under the WHATWG Shift_JIS that truth uses - encoding_rs - they are
+        #  backslash and tilde in both directions, so both belong to the repertoire; paths like data\\eff01.anm are everyday input)
         e = ok(c)
         if e: chars[c] = e
     return chars
